@@ -247,9 +247,9 @@ def run(tier, seed):
             if n % 9000 == 7:
                 run.sample({"mode": case["mode"], "hist": case["hist"], "expected_matrix": case["val"]})
             n += 1
-        # beyond the exhaustive bound: lists / operation histories of 6 entries
-        sres, vals = engine.simulate_cases(work, "MC_C04", {"MaxLen": 6, "Full": "TRUE"}, num=(2 if tier == "quick" else 80), depth=8, seed=seed + 1)
-        run.add_tlc(sres, "TransformList lists and Matrix histories of length 6 by TLC -simulate (%d behaviours)" % sres["behaviours"])
+        # beyond the exhaustive bound: lists / operation histories of 8 entries
+        sres, vals = engine.simulate_cases(work, "MC_C04", {"MaxLen": 8, "Full": "TRUE"}, num=(2 if tier == "quick" else 80), depth=10, seed=seed + 1)
+        run.add_tlc(sres, "TransformList lists and Matrix histories of length 8 by TLC -simulate (%d behaviours)" % sres["behaviours"])
         sim = [{"mode": v[1], "hist": v[2], "val": v[3], "img": v[4], "seed": seed} for v in vals]
         for case, r in engine.replay("harness.c04", sim, chunk=300):
             run.record(case, r, key=r["class"])
